@@ -202,6 +202,13 @@ def gen_scenario(seed, tier="quick"):
                 ][: prng.randint(1, 3)]
         f["tmpl"] = tm
         f["n"] = prng.randint(1, 4)
+        f["alias_local"] = None
+        if tm == "local" and prng.random() < 0.4:
+            # a local that carries the name of a function defined elsewhere (legal: it shadows it here)
+            others = [g["name"] for j, g in enumerate(funcs) if g["name"] != f["name"] and g.get("export", True)
+                      and not any(c["f"] == j for c in f["calls"]) and g["name"] not in [p_[0] for p_ in f["params"]]]
+            if others:
+                f["alias_local"] = prng.choice(others)
     # imports
     gmod = {g["name"]: g["mod"] for g in globs}
     for m in range(nm):
@@ -291,6 +298,8 @@ def gen_scenario(seed, tier="quick"):
                     "loader": loader,
                     "via": via,
                     "hs": rng.randint(0, 2 ** 31 - 1),
+                    # after the link the host tries to add a second definition to the very same linker
+                    "dup_after": rng.random() < 0.12,
                 }
             )
         if rng.random() < 0.06:
@@ -463,7 +472,8 @@ def func_src(sc, i, dk=0, variant=0):
     elif tm == "vec" and rt == "float":
         body = f"  float4 vv = float4(1.5, 2.5, 3.5, 4.5);\n  vv.y = {val};\n  return vv[1];\n"
     elif tm == "local":
-        body = f"  {rt} r = {val};\n  {rt} u = (r + {zero if rt == 'float' else '2'});\n  return u;\n"
+        u = f.get("alias_local") or "u"
+        body = f"  {rt} r = {val};\n  {rt} {u} = (r + {zero if rt == 'float' else '2'});\n  return {u};\n"
     else:
         body = f"  return {val};\n"
     return head + side + body + "}\n"
